@@ -446,12 +446,18 @@ func evaluate(c Case) (outcome, error) {
 		if err != nil {
 			return oc, fmt.Errorf("%s: %v", e.name, err)
 		}
+		snap := cloneMP(out)
+		identical := false
 		if i > 0 {
-			if same, _ := gen.SameBits(out, first); same {
-				continue // identical to the typed entry point, already judged
-			}
+			identical, _ = gen.SameBits(out, first) // identical to the typed entry point: already judged
 		} else {
-			first = out
+			first = snap
+		}
+		if identical {
+			if err := independent(e, out, snap); err != nil {
+				return oc, fmt.Errorf("%s: %v", e.name, err)
+			}
+			continue
 		}
 		z, asked, err := judge(an, c, out)
 		if i == 0 {
@@ -465,8 +471,76 @@ func evaluate(c Case) (outcome, error) {
 		if err != nil {
 			return oc, fmt.Errorf("%s: %v", e.name, err)
 		}
+		if err := independent(e, out, snap); err != nil {
+			return oc, fmt.Errorf("%s: %v", e.name, err)
+		}
 	}
 	return oc, nil
+}
+
+// independent: a result is a value of its own (round J class C). out is scribbled on ring by ring –
+// every point overwritten, two points appended into whatever spare capacity the ring has, a ring appended
+// to every polygon, a polygon appended to the result – and (a) the rings not yet scribbled on must stay
+// bit-identical to the snapshot taken before (siblings do not share memory), (b) the same call repeated on
+// a fresh copy of the input must return the snapshot again (nothing the package keeps was reachable from
+// the result). The input copy handed to the first call may legitimately be aliased by the result
+// ("returned unchanged"); it is never used again.
+func independent(e entry, out, snap orb.MultiPolygon) error {
+	junk := orb.Point{-1.2345678e200, 8.7654321e199}
+	sameRing := func(a, b orb.Ring) bool {
+		if len(a) != len(b) {
+			return false
+		}
+		for k := range a {
+			if math.Float64bits(a[k][0]) != math.Float64bits(b[k][0]) || math.Float64bits(a[k][1]) != math.Float64bits(b[k][1]) {
+				return false
+			}
+		}
+		return true
+	}
+	untouched := func(fromP, fromR int, what string) error {
+		for pj := fromP; pj < len(snap); pj++ {
+			if len(out[pj]) < len(snap[pj]) {
+				return fmt.Errorf("%s changed the number of rings of polygon %d", what, pj)
+			}
+			r0 := 0
+			if pj == fromP {
+				r0 = fromR
+			}
+			for rj := r0; rj < len(snap[pj]); rj++ {
+				if !sameRing(out[pj][rj], snap[pj][rj]) {
+					return fmt.Errorf("%s changed polygon %d ring %d of the same result: %v, was %v", what, pj, rj, out[pj][rj], snap[pj][rj])
+				}
+			}
+		}
+		return nil
+	}
+	for pi := range snap {
+		for ri := range snap[pi] {
+			r := out[pi][ri]
+			for k := range r {
+				r[k] = junk
+			}
+			out[pi][ri] = append(r, junk, junk)
+			if err := untouched(pi, ri+1, fmt.Sprintf("overwriting and appending to polygon %d ring %d of the result", pi, ri)); err != nil {
+				return err
+			}
+		}
+		out[pi] = append(out[pi], orb.Ring{junk, junk})
+		if err := untouched(pi+1, 0, fmt.Sprintf("appending a ring to polygon %d of the result", pi)); err != nil {
+			return err
+		}
+	}
+	out = append(out, orb.Polygon{{junk}})
+	_ = out
+	again, err := e.call()
+	if err != nil {
+		return err
+	}
+	if same, why := gen.SameBits(again, snap); !same {
+		return fmt.Errorf("the same call on a fresh copy of the input, after the first result was scribbled on, returned something else (%s): %v, first result was %v", why, again, snap)
+	}
+	return nil
 }
 
 func queryPoints(c Case, b orb.Bound) []orb.Point {
@@ -654,6 +728,19 @@ func TestReplay(t *testing.T) {
 	_, raw, ok := stats.Replaying()
 	if !ok {
 		t.Skip("no replay file")
+	}
+	if name, _, _ := stats.Replaying(); name == "TestPropConcurrent" {
+		var cs []Case
+		if err := json.Unmarshal(raw, &cs); err != nil {
+			t.Fatal(err)
+		}
+		for k := 0; k < 20; k++ {
+			f := concurrentCheck(cs)
+			if err := stats.ParallelErr(len(cs), 200, f); err != nil {
+				t.Fatalf("replayed concurrent group still fails: %v", err)
+			}
+		}
+		return
 	}
 	var c Case
 	if err := json.Unmarshal(raw, &c); err != nil {
